@@ -269,6 +269,142 @@ def names_assigned(stmts):
     return out
 
 
+_FACTS = {}
+
+
+def runtime_facts():
+    """values of a few module-level constants as the imported package holds them (one subprocess per run)"""
+    if translate.REPO in _FACTS:
+        return _FACTS[translate.REPO]
+    import json
+    import subprocess
+    code = r'''
+import sys, re, json
+sys.path.insert(0, %r)
+from metomi.isodatetime import parser_spec, data
+from metomi.isodatetime.dumpers import TimePointDumper
+def pat(x, want):
+    return isinstance(x, re.Pattern) and x.pattern == want and x.flags == re.compile(want).flags
+m = data.TIMEPOINT_DUMPER_MAP
+print(json.dumps({
+  "TIME_DESIGNATOR_is_T": type(parser_spec.TIME_DESIGNATOR) is str and parser_spec.TIME_DESIGNATOR == "T",
+  "REC_SPLIT_STRFTIME_DIRECTIVE_ok": pat(parser_spec.REC_SPLIT_STRFTIME_DIRECTIVE, r"(%%\w)"),
+  "REC_STRFTIME_DIRECTIVE_TOKEN_ok": pat(parser_spec.REC_STRFTIME_DIRECTIVE_TOKEN, r"^%%\w$"),
+  "DUMPER_MAP_ok": type(m) is dict and all(type(k) is int and type(v) is TimePointDumper
+                                           and type(v.num_expanded_year_digits) is int
+                                           and v.num_expanded_year_digits == k for k, v in m.items())}))
+''' % translate.REPO
+    r = subprocess.run([sys.executable, "-c", code], capture_output=True, text=True, timeout=120,
+                       env=dict(os.environ, PYTHONHASHSEED="0"))
+    if r.returncode != 0:
+        raise Reject("the package cannot be imported: " + r.stderr.strip()[-200:])
+    _FACTS[translate.REPO] = json.loads(r.stdout)
+    return _FACTS[translate.REPO]
+
+
+def check_dumper_init(init):
+    """TimePointDumper.__init__ written differently from the pinned tree (whose ast.dump has the stored hash).
+    It is accepted when (statically) it cannot look at `num_expanded_year_digits` except to store it and to pass it to
+    parser_spec.get_date_translate_info, calls nothing but the three parser_spec.get_*_translate_info, re.compile and
+    the container builders, and stores only into locals and attributes/items of `self`; and (by running the package's
+    own constructor for 0..9 expanded year digits) the object it leaves behind is exactly the one the pinned
+    constructor builds: _timepoint_parser None, _time_designator = parser_spec.TIME_DESIGNATOR, the number stored, and
+    _rec_formats[key] = [(re.compile(regex), format_sub, prop_name) for regex, _, format_sub, prop_name in info]
+    for the three tables.  The first part makes the body uniform in the number, the second decides what it does."""
+    a = init.args
+    if init.decorator_list or a.posonlyargs or a.kwonlyargs or a.vararg or a.kwarg \
+            or [x.arg for x in a.args] != ["self", "num_expanded_year_digits"] \
+            or len(a.defaults) != 1 or not (isinstance(a.defaults[0], ast.Constant) and a.defaults[0].value == 2
+                                            and type(a.defaults[0].value) is int):
+        raise Reject("TimePointDumper.__init__: signature is not (self, num_expanded_year_digits=2)")
+    N = "num_expanded_year_digits"
+    parent = {}
+    for nd in ast.walk(init):
+        for ch in ast.iter_child_nodes(nd):
+            parent[ch] = nd
+    bad = (ast.Global, ast.Nonlocal, ast.Import, ast.ImportFrom, ast.Raise, ast.Try, ast.With, ast.Lambda, ast.Yield,
+           ast.YieldFrom, ast.Await, ast.While, ast.FunctionDef, ast.AsyncFunctionDef, ast.ClassDef, ast.Delete,
+           ast.AugAssign, ast.NamedExpr, ast.Return, ast.Assert, ast.AsyncFor, ast.AsyncWith)
+    info_fns = ("get_date_translate_info", "get_time_translate_info", "get_time_zone_translate_info")
+
+    def is_ps(f, names):
+        return isinstance(f, ast.Attribute) and isinstance(f.value, ast.Name) and f.value.id == "parser_spec" \
+            and f.attr in names
+    for nd in ast.walk(init):
+        if nd is init:
+            continue
+        if isinstance(nd, bad):
+            raise Reject("TimePointDumper.__init__: statement kind %s" % type(nd).__name__)
+        if isinstance(nd, ast.Call):
+            f = nd.func
+            ok = is_ps(f, info_fns) \
+                or (isinstance(f, ast.Attribute) and isinstance(f.value, ast.Name) and f.value.id == "re"
+                    and f.attr == "compile") \
+                or (isinstance(f, ast.Attribute) and f.attr in ("append", "items", "keys", "values")) \
+                or (isinstance(f, ast.Attribute) and isinstance(f.value, ast.Name) and f.value.id == "dict"
+                    and f.attr == "fromkeys") \
+                or (isinstance(f, ast.Name) and f.id in ("dict", "list", "tuple", "zip", "enumerate"))
+            if not ok:
+                raise Reject("TimePointDumper.__init__ calls %s" % ast.unparse(f)[:60])
+        if isinstance(nd, ast.Name) and nd.id in ("dict", "list", "tuple", "zip", "enumerate", "re", "parser_spec",
+                                                   "self", N) and not isinstance(nd.ctx, ast.Load):
+            raise Reject("TimePointDumper.__init__ rebinds %s" % nd.id)
+        if isinstance(nd, ast.Attribute) and not isinstance(nd.ctx, ast.Load) \
+                and not (isinstance(nd.value, ast.Name) and nd.value.id == "self"):
+            raise Reject("TimePointDumper.__init__ stores into %s" % ast.unparse(nd)[:60])
+        if isinstance(nd, ast.Name) and nd.id == N:
+            p = parent[nd]
+            stored = isinstance(p, ast.Assign) and p.value is nd and len(p.targets) == 1 \
+                and isinstance(p.targets[0], ast.Attribute) and isinstance(p.targets[0].value, ast.Name) \
+                and p.targets[0].value.id == "self" and p.targets[0].attr == N
+            passed = isinstance(p, ast.Call) and is_ps(p.func, info_fns[:1]) and p.args == [nd] and not p.keywords
+            if not (stored or passed):
+                raise Reject("TimePointDumper.__init__ looks at num_expanded_year_digits (%s)" % ast.unparse(p)[:60])
+    import subprocess
+    code = r'''
+import sys, re
+sys.path.insert(0, %r)
+from metomi.isodatetime import parser_spec
+from metomi.isodatetime.dumpers import TimePointDumper
+def fail(msg):
+    print("MISMATCH " + msg); sys.exit(0)
+for n in range(10):
+    d = TimePointDumper(n)
+    try:
+        v = vars(d)
+    except TypeError:
+        fail("no instance dictionary")
+    if set(v) != {"_timepoint_parser", "_rec_formats", "_time_designator", "num_expanded_year_digits"}:
+        fail("attributes %%s" %% sorted(v))
+    if v["_timepoint_parser"] is not None or v["_time_designator"] != parser_spec.TIME_DESIGNATOR \
+            or type(v["_time_designator"]) is not str \
+            or v["num_expanded_year_digits"] != n or type(v["num_expanded_year_digits"]) is not int:
+        fail("scalar attributes at n=%%d" %% n)
+    rf = v["_rec_formats"]
+    if type(rf) is not dict or set(rf) != {"date", "time", "time_zone"}:
+        fail("_rec_formats keys")
+    for key, info in (("date", parser_spec.get_date_translate_info(n)), ("time", parser_spec.get_time_translate_info()),
+                      ("time_zone", parser_spec.get_time_zone_translate_info())):
+        got = rf[key]
+        exp = [(rx, fs, pn) for rx, _, fs, pn in info]
+        if type(got) is not list or len(got) != len(exp):
+            fail("_rec_formats[%%s] length at n=%%d" %% (key, n))
+        for g, e in zip(got, exp):
+            if type(g) is not tuple or len(g) != 3 or not isinstance(g[0], re.Pattern) or g[0].pattern != e[0] \
+                    or g[0].flags != re.compile(e[0]).flags or g[1] != e[1] or g[2] != e[2]:
+                fail("_rec_formats[%%s] entry at n=%%d" %% (key, n))
+    if len({id(x) for x in rf.values()}) != 3:
+        fail("_rec_formats lists are shared")
+print("SAME")
+''' % translate.REPO
+    r = subprocess.run([sys.executable, "-c", code], capture_output=True, text=True, timeout=120,
+                       env=dict(os.environ, PYTHONHASHSEED="0"))
+    out = r.stdout.strip()
+    if r.returncode != 0 or out != "SAME":
+        raise Reject("TimePointDumper.__init__ does not build the known object: %s"
+                     % (out or r.stderr.strip()[-160:]))
+
+
 class Unit:
     def __init__(self):
         self.mods = {}
@@ -322,7 +458,7 @@ class Unit:
             raise Reject("TimePointDumper.__init__ not found")
         sha = hashlib.sha256(ast.dump(init).encode()).hexdigest()
         if sha != DUMPER_INIT_SHA:
-            raise Reject("TimePointDumper.__init__ is not the known shape (sha %s)" % sha)
+            check_dumper_init(init)
         # parser_spec constants
         want = {"REC_SPLIT_STRFTIME_DIRECTIVE": r"(%\w)", "REC_STRFTIME_DIRECTIVE_TOKEN": r"^%\w$"}
         got = {}
@@ -338,9 +474,10 @@ class Unit:
                         got[nm] = None
                 if nm == "TIME_DESIGNATOR":
                     if not (isinstance(nd.value, ast.Constant) and nd.value.value == "T"):
-                        raise Reject("parser_spec.TIME_DESIGNATOR is not \"T\"")
+                        self.runtime_fact("parser_spec", "TIME_DESIGNATOR", "TIME_DESIGNATOR_is_T")
         if got != want:
-            raise Reject("parser_spec strftime patterns changed: %r" % (got,))
+            for nm in want:
+                self.runtime_fact("parser_spec", nm, nm + "_ok")
         f = None
         for nd in self.mods["parser_spec"].body:
             if isinstance(nd, ast.FunctionDef) and nd.name == "translate_strftime_token":
@@ -361,7 +498,7 @@ class Unit:
             if isinstance(nd, ast.Assign) and len(nd.targets) == 1 and isinstance(nd.targets[0], ast.Name) \
                     and nd.targets[0].id == "TIMEPOINT_DUMPER_MAP":
                 ok = isinstance(nd.value, ast.Dict)
-                for k, v in zip(nd.value.keys, nd.value.values):
+                for k, v in (zip(nd.value.keys, nd.value.values) if ok else ()):
                     if not (isinstance(k, ast.Constant) and isinstance(v, ast.Call)
                             and ast.unparse(v.func) == "dumpers.TimePointDumper"
                             and ((len(v.args) == 1 and not v.keywords and ast.dump(v.args[0]) == ast.dump(k))
@@ -370,7 +507,35 @@ class Unit:
                                      and ast.dump(v.keywords[0].value) == ast.dump(k)))):
                         ok = False
         if not ok:
-            raise Reject("TIMEPOINT_DUMPER_MAP is not {k: TimePointDumper(k)}")
+            self.runtime_fact("data", "TIMEPOINT_DUMPER_MAP", "DUMPER_MAP_ok")
+
+    def runtime_fact(self, mod, name, fact):
+        """A module-level constant spelled differently from the pinned tree: accepted when the name is bound exactly
+        once in its module (one module-level assignment, no other store anywhere in the module) and the value the
+        imported package holds is the expected one."""
+        n_top = sum(1 for nd in self.mods[mod].body if isinstance(nd, ast.Assign) and len(nd.targets) == 1
+                    and isinstance(nd.targets[0], ast.Name) and nd.targets[0].id == name)
+        n_all = sum(1 for nd in ast.walk(self.mods[mod])
+                    if (isinstance(nd, ast.Name) and nd.id == name and not isinstance(nd.ctx, ast.Load))
+                    or (isinstance(nd, (ast.Global, ast.Nonlocal)) and name in nd.names)
+                    or (isinstance(nd, ast.arg) and nd.arg == name))
+        if n_top != 1 or n_all != 1:
+            raise Reject("%s.%s is not bound exactly once" % (mod, name))
+        facts = runtime_facts()
+        if facts.get(fact) is not True:
+            raise Reject("%s.%s does not have the expected value at run time (%s)" % (mod, name, facts.get(fact)))
+
+    def rebinds_builtin(self, name):
+        """is the builtin `name` bound anywhere in data.py / dumpers.py (then its meaning is not the builtin's)"""
+        for m in ("data", "dumpers"):
+            for nd in ast.walk(self.mods[m]):
+                if (isinstance(nd, ast.Name) and nd.id == name and not isinstance(nd.ctx, ast.Load)) \
+                        or (isinstance(nd, ast.arg) and nd.arg == name) \
+                        or (isinstance(nd, (ast.FunctionDef, ast.ClassDef)) and nd.name == name) \
+                        or (isinstance(nd, (ast.Import, ast.ImportFrom))
+                            and any((a.asname or a.name).split(".")[0] == name for a in nd.names)):
+                    return True
+        return False
 
     def is_value_error(self, cls, seen=()):
         if cls == "ValueError":
@@ -1149,6 +1314,15 @@ class Unit2(Unit):
             if (s.module, s.level, names) in (("data", 1, ["TimeZone"]), (None, 1, ["parsers"])):
                 return k(env)
             raise Reject("import inside a function")
+        if isinstance(s, ast.Assign) and isinstance(s.value, ast.Call) and not s.value.keywords \
+                and ast.unparse(s.value.func) == "dict.fromkeys" and len(s.value.args) == 2 and "dict" not in env \
+                and isinstance(s.value.args[0], (ast.Tuple, ast.List)) and s.value.args[0].elts \
+                and all(isinstance(x, ast.Constant) and isinstance(x.value, str) for x in s.value.args[0].elts) \
+                and len({x.value for x in s.value.args[0].elts}) == len(s.value.args[0].elts) \
+                and isinstance(s.value.args[1], ast.Constant) and not self.rebinds_builtin("dict"):
+            # dict.fromkeys((<distinct constant strings>), <immutable literal>) is the dict literal with those keys
+            s = ast.copy_location(ast.Assign(targets=s.targets, value=ast.Dict(
+                keys=list(s.value.args[0].elts), values=[s.value.args[1]] * len(s.value.args[0].elts))), s)
         if isinstance(s, ast.Assign):
             if isinstance(s.value, ast.Dict) and s.value.keys and len(s.targets) == 1 and \
                     isinstance(s.targets[0], ast.Name):
